@@ -12,6 +12,7 @@ import (
 	"testing"
 	"testing/iotest"
 
+	"github.com/ohler55/ojg"
 	"github.com/ohler55/ojg/gen"
 	"github.com/ohler55/ojg/oj"
 	"pgregory.net/rapid"
@@ -124,6 +125,22 @@ var frontEnds = []frontEnd{
 		t := oj.Tokenizer{}
 		t.OnlyOne = true
 		return t.Load(gx.Chunking{Sizes: []int{5}, EOFWithData: true}.Reader(d), &oj.ZeroHandler{})
+	}},
+	// a number conversion option is no request for several documents: one text only, as without it
+	{"oj.Parse(NumConvString)", func(d []byte) error { _, err := oj.Parse(d, ojg.NumConvString); return err }},
+	{"oj.ParseString(NumConvFloat64)", func(d []byte) error { _, err := oj.ParseString(string(d), ojg.NumConvFloat64); return err }},
+	{"oj.Load(NumConvNone)", func(d []byte) error { _, err := oj.Load(bytes.NewReader(d), ojg.NumConvNone); return err }},
+	{"oj.Parser.Parse(NumConvFloat64)", func(d []byte) error { p := oj.Parser{}; _, err := p.Parse(d, ojg.NumConvFloat64); return err }},
+	{"oj.Parser.ParseReader/4(NumConvString)", func(d []byte) error {
+		p := oj.Parser{}
+		_, err := p.ParseReader(gx.Chunking{Sizes: []int{4}}.Reader(d), ojg.NumConvString)
+		return err
+	}},
+	{"oj.Parser{Reuse}.Parse", func(d []byte) error { p := oj.Parser{Reuse: true}; _, err := p.Parse(d); return err }},
+	{"gen.Parser{Reuse}.ParseReader/5", func(d []byte) error {
+		p := gen.Parser{Reuse: true}
+		_, err := p.ParseReader(gx.Chunking{Sizes: []int{5}}.Reader(d))
+		return err
 	}},
 	// instances with a history of earlier calls (internal/vet)
 	{"oj.Parser(veteran).Parse", func(d []byte) error { _, err := vet.OjParser().Parse(d); return err }},
